@@ -73,13 +73,14 @@ def laws(dim, names=None):
     T2 = np.array([2 / 3, -2 / 3, 1 / 3]) if dim == 3 else np.array([-0.8, 0.6, 0.0])
     mk = dict(
         SVK=lambda: H.SaintVenantKirchhoff(dim, 2.0, 3.0, 0.5, thickness=0.5),
+        SVQ=lambda: H.SaintVenantKirchhoff(dim, 2.0, 3.0, 0.0, thickness=0.5),  # quadratic in E
         NH=lambda: H.NeoHookean(dim, 2.0, thickness=0.5),
         MR=lambda: H.MooneyRivlin(dim, 2.0, 1.5, 3.0, thickness=0.5),
         CG=lambda: H.CiarletGeymonat(dim, 2.0, 1.5, 3.0, thickness=0.5),
         HO=lambda: H.HolzapfelOgden(dim, 0.3, 0.5, 0.4, 0.6, 0.2, 0.7, 0.1, 0.9, 2.0, 0.8, 0.6, T1, T2, ks=5.0, thickness=0.5),
         AD=lambda: H.AutoDiff(dim, _user_energy, thickness=0.5),
     )
-    return {n: mk[n]() for n in (names or mk)}
+    return {n: mk[n]() for n in (names or [k for k in mk if k != "SVQ"])}
 
 
 def affine_state(mesh, dim, F, matrixType="rigi"):
@@ -241,7 +242,8 @@ def scalar_model(law, opt, ck, u0, u1):
         sm = dW(gt)
         s = sm if de * de <= 1e-10 else sm + (W(u1) - W(u0) - sm * de) / de
     else:
-        pts = {"quad1": [(0.5, 1.0)], "quad2": [(0.0, 0.5), (1.0, 0.5)], "quad3": [(0.0, 1 / 6), (0.5, 2 / 3), (1.0, 1 / 6)]}[opt]
+        pts = {"quad1": [(0.5, 1.0)], "quad2": [(0.0, 0.5), (1.0, 0.5)], "quad3": [(0.0, 1 / 6), (0.5, 2 / 3), (1.0, 1 / 6)],
+               "quad4": [(0.0, 1 / 18), (0.25, 4 / 9), (0.75, 4 / 9), (1.0, 1 / 18)]}[opt]
         s = sum(w * dWe(e0 + t * de) for t, w in pts)
     return A * (1 + gt) * s, 0.5 * W(u1), 0.5 * W(u0)
 
@@ -458,6 +460,15 @@ def ops_job(job):
             sc = max(np.abs(Kd).max(), np.abs(dR).max(), 1e-12)
             err = np.abs(Kd - sign * dR).max() / sc
             n += 1
+            if rec.get("identity"):
+                # discrete-gradient identity: sum_e R_e . (u1 - un)_e = integral of W(u1) - W(un)
+                st_n, st_1 = HyperElasticState(g, un, MatrixType.rigi), HyperElasticState(g, u1, MatrixType.rigi)
+                wJ = np.asarray(g.Get_weightedJacobian_e_pg(MatrixType.rigi))
+                dWtot = float(np.sum(wJ * (np.asarray(mat.Compute_W(st_1)) - np.asarray(mat.Compute_W(st_n))))) * (mat.thickness if dim == 2 else 1.0)
+                work = float(np.einsum("ei,ei->", np.asarray(R_e), (u1 - un)[asm]))
+                n += 1
+                if abs(work - dWtot) > 1e-9 * max(abs(dWtot), 1e-6):
+                    viol.append((f"discrete-gradient/{key}", f"{key}: the work of the internal force over the step, {work!r}, differs from the change of stored energy {dWtot!r}", robj))
             if op == "gonzalez-inconsistent":
                 # same residual as the consistent variant; the tangent is documented as approximate
                 Rc = NL.GonzalezStressTensor(mat, HyperElasticState(g, un, MatrixType.rigi), HyperElasticState(g, ut_of(u1), MatrixType.rigi), HyperElasticState(g, u1, MatrixType.rigi), True)[1]
